@@ -247,6 +247,10 @@ def oracle_c04(case):
             if not hits:
                 return f"model {m.name}: key {key!r} has no field among {list(emitted)}"
             f = hits[0]
+            # "the Python name is the sanitised key": with the default naming options a field name is snake case - never an upper-case
+            # letter, a space or a hyphen, whatever the key looked like
+            if any(ch.isupper() or ch in " -" for ch in f):
+                return f"model {m.name}: key {key!r} became field {f!r}, which is not a sanitised (snake-case) name"
             ann, default = emitted[f]
             exp = expected_annotation(t, fw)
             if ast.dump(ast.parse(ann, mode="eval")) != ast.dump(ast.parse(exp, mode="eval")):
@@ -324,6 +328,12 @@ C04_KEYS = ["a", "b-c", "dE", "class", "x y"]
 def c04_cases(tier, seed):
     rng = random.Random(seed)
     vals = VALUES
+    # a model whose name equals one of its own keys (name and field-name conversion are cached on one generator object);
+    # Root itself with a key "Root"; an optional renamed scalar (metadata must survive a default)
+    yield [{"Response": {"Response": "ok", "Code": 200}}]
+    yield [{"Root": 1, "other": 2}]
+    yield [{"Item": {"Item": {"Item": 1}}}]
+    yield [{"User Name": 1, "back\\slash": 2.5, "from": "x"}, {}]
     for v in vals:
         yield [{"a": v}]
         yield [{"b-c": v}, {}]
